@@ -17,13 +17,21 @@ using vf::i128;
 static vf::Evidence* EV;
 
 struct Op { int kind; int a; int64_t b; };  // kind: 0 load name[a]; 1 lookup(t) on zone a; 2 lookup(cs); 3 next; 4 prev; 5 format; 6 parse; 7 utc/fixed/local factories
-struct Workload { int id; std::vector<std::string> names; std::vector<std::vector<Op>> threads; };
+struct Workload { int id; std::vector<std::string> names; std::vector<std::vector<Op>> threads; bool hammer = false; };
 
 static std::vector<std::string> g_valid;  // bytes of a few shipped zones
 
-static std::string exec_op(const Op& op, const Workload& w) {
+// zcache: in a hammer workload each thread loads a name once and keeps the time_zone (as a server would), so that
+// the threads meet in the zone's lookup code rather than at the loader's map mutex
+static std::string exec_op(const Op& op, const Workload& w, std::vector<std::pair<bool, cctz::time_zone>>* zcache = nullptr) {
   char b[300];
-  auto zone = [&](int a) { cctz::time_zone tz; cctz::load_time_zone(w.names[a % w.names.size()], &tz); return tz; };
+  auto zone = [&](int a) {
+    const size_t i = a % w.names.size();
+    if (zcache && (*zcache)[i].first) return (*zcache)[i].second;
+    cctz::time_zone tz; cctz::load_time_zone(w.names[i], &tz);
+    if (zcache) (*zcache)[i] = {true, tz};
+    return tz;
+  };
   switch (op.kind) {
     case 0: { cctz::time_zone tz; bool ok = cctz::load_time_zone(w.names[op.a % w.names.size()], &tz); snprintf(b, sizeof b, "load %d %s", (int)ok, tz.name().c_str()); return b; }
     case 1: { auto al = zone(op.a).lookup(zp::tp(op.b)); snprintf(b, sizeof b, "L %lld-%d-%d %d:%d:%d %d %d %s", (long long)al.cs.year(), al.cs.month(), al.cs.day(), al.cs.hour(), al.cs.minute(), al.cs.second(), al.offset, (int)al.is_dst, al.abbr); return b; }
@@ -48,14 +56,18 @@ static bool run_workload(const Workload& w, std::string* why, bool* overlapped) 
   std::atomic<int> inside_first_load{0}; std::atomic<int> max_inside{0};
   std::vector<std::thread> th;
   for (size_t i = 0; i < k; ++i) th.emplace_back([&, i]() {
+    std::vector<std::pair<bool, cctz::time_zone>> zcache(w.names.size());
     ++ready; while (!go.load(std::memory_order_acquire)) std::this_thread::yield();
     for (const Op& op : w.threads[i]) {
       if (op.kind == 0) {
         int n = ++inside_first_load; int m = max_inside.load(); while (n > m && !max_inside.compare_exchange_weak(m, n)) {}
-        cctz::time_zone tz; cctz::load_time_zone(w.names[op.a % w.names.size()], &tz); zones[i].push_back(tz);
+        // the result of THIS call (possibly the racing first load of the name) is what is compared, not a later cached one
+        cctz::time_zone tz; const bool ok = cctz::load_time_zone(w.names[op.a % w.names.size()], &tz); zones[i].push_back(tz);
         --inside_first_load;
+        char b[300]; snprintf(b, sizeof b, "load %d %s", (int)ok, tz.name().c_str()); res[i].push_back(b);
+        continue;
       }
-      res[i].push_back(exec_op(op, w));
+      res[i].push_back(exec_op(op, w, w.hammer ? &zcache : nullptr));
     }
   });
   while (ready.load() < (int)k) std::this_thread::yield();
@@ -80,7 +92,7 @@ static bool run_workload(const Workload& w, std::string* why, bool* overlapped) 
 }
 
 static Workload parse_workload(const vf::Case& c) {
-  Workload w; w.id = (int)c.num("id");
+  Workload w; w.id = (int)c.num("id"); w.hammer = c.num("hammer") != 0;
   std::istringstream n(c.get("names")); std::string tok;
   while (std::getline(n, tok, '|')) if (!tok.empty()) w.names.push_back(tok);
   std::istringstream t(c.get("threads")); std::string line;
@@ -92,7 +104,7 @@ static Workload parse_workload(const vf::Case& c) {
   return w;
 }
 static vf::Case to_case(const Workload& w) {
-  vf::Case c; c.set("id", w.id);
+  vf::Case c; c.set("id", w.id); c.set("hammer", w.hammer ? 1 : 0);
   std::string n; for (auto& x : w.names) n += x + "|"; c.set("names", n);
   std::string t; for (auto& th : w.threads) { for (auto& op : th) t += std::to_string(op.kind) + ":" + std::to_string(op.a) + ":" + std::to_string(op.b) + " "; t += ";"; }
   c.set("threads", t);
@@ -130,25 +142,29 @@ static void run(const vf::Args& a, vf::Evidence& ev, vf::Reporter& rep) {
   EV = &ev;
   load_valid();
   ev.rule = "rapidcheck-generated workloads under ThreadSanitizer: k in [2,16] (thorough: up to 64) threads x 5-60 operations each "
-            "over a pool of fresh names (valid zone data, missing, garbage, fixed-offset, UTC, absolute paths of shipped zones): "
+            "over a pool of fresh names (valid zone data, missing, garbage - half of them served by a zone-data factory that "
+            "holds the loader inside the load for 400 us, so other threads arrive while a first load is in progress -, "
+            "fixed-offset, UTC, absolute paths of shipped zones): "
             "load_time_zone, lookup(time_point), lookup(civil_second), next/prev_transition, format, parse, utc/fixed/local "
-            "factories; instants spread over different transitions of the shared zones. All threads are released together. "
+            "factories; instants spread over different transitions of the shared zones; one workload in four is a 'hammer' "
+            "(all threads do 300-1500 lookups/transition queries on one shared zone). All threads are released together. "
             "Oracle: no TSan report (halt_on_error), values equal a single-threaded re-execution, loaders of one name hold equal "
             "zones. Non-trivial = at least two threads were inside load_time_zone at the same time (observed); distinct by workload.";
   const char* d = getenv("TZDIR"); const std::string base = d ? d : "/repo/testdata/zoneinfo";
-  long budget = a.budget(250, 5000);
+  long budget = a.budget(300, 5000);
   int wl = 0;
   {
     // The very first loads of the process (no zone map exists yet): 8 threads, overlapping and distinct fresh names.
     // Each shard process contributes one such sample (state that only exists once per process).
     Workload w; w.id = a.shard * 100000;
-    for (int i = 0; i < 5; ++i) w.names.push_back("mem:c13/first/" + std::to_string(a.shard) + "/" + std::to_string(i) + (i == 3 ? "/missing" : "/valid"));
+    // four names, each first-loaded by two threads at once: two with valid data, one missing, one with garbage data
+    for (int i = 0; i < 4; ++i) w.names.push_back("mem:c13/first/" + std::to_string(a.shard) + "/" + std::to_string(i) + (i == 2 ? "/missing" : i == 3 ? "/garbage" : "/valid") + (a.shard % 2 ? "/slow" : ""));
     for (int t = 0; t < 8; ++t) {
       std::vector<Op> ops;
-      ops.push_back(Op{0, t % 5, 0});
-      ops.push_back(Op{1, t % 5, 1700000000 + t * 1000000});
-      ops.push_back(Op{0, (t + 1) % 5, 0});
-      ops.push_back(Op{2, (t + 2) % 5, -1000000000 + t * 7777777});
+      ops.push_back(Op{0, t % 4, 0});
+      ops.push_back(Op{1, t % 4, 1700000000 + t * 1000000});
+      ops.push_back(Op{0, (t + 1) % 4, 0});
+      ops.push_back(Op{2, (t + 2) % 4, -1000000000 + t * 7777777});
       w.threads.push_back(ops);
     }
     register_names(w);
@@ -163,28 +179,40 @@ static void run(const vf::Args& a, vf::Evidence& ev, vf::Reporter& rep) {
     if (!ok) { rep.failing(c, why); rep.commit(); }
   }
   vf::rc_run("C13.workloads", a.stream_seed(1), (int)budget, rep, [&]() {
+    if (rep.shrink_budget_spent(40)) return;  // schedule-dependent failures: bounded shrinking
     Workload w; w.id = a.shard * 100000 + (++wl);
-    const int nnames = *vf::range<int>(1, 6);
+    // one workload in four is a "hammer": many threads doing nothing but lookups (both directions) and transition
+    // queries on ONE shared zone, instants spread over its transitions - the shape in which the shared search hints
+    // of a zone are read and written most often by different threads
+    const bool hammer = *vf::range<int>(0, 3) == 0;
+    w.hammer = hammer;
+    const int nnames = hammer ? 1 : *vf::range<int>(1, 6);
     for (int i = 0; i < nnames; ++i) {
-      int kind = *rc::gen::weightedElement<int>({{5, 0}, {1, 1}, {1, 2}, {1, 3}, {1, 4}, {2, 5}});
+      int kind = hammer ? (*vf::range<int>(0, 1) ? 0 : 5) : *rc::gen::weightedElement<int>({{5, 0}, {2, 1}, {2, 2}, {1, 3}, {1, 4}, {2, 5}});
       std::string pfx = "mem:c13/" + std::to_string(w.id) + "/" + std::to_string(i);
+      // "/slow": the zone-data factory (harness-owned) holds the loader inside the load for 400 us
+      const std::string sfx = !hammer && *vf::range<int>(0, 1) ? "/slow" : "";
       switch (kind) {
-        case 0: w.names.push_back(pfx + "/valid"); break;
-        case 1: w.names.push_back(pfx + "/missing"); break;
-        case 2: w.names.push_back(pfx + "/garbage"); break;
+        case 0: w.names.push_back(pfx + "/valid" + sfx); break;
+        case 1: w.names.push_back(pfx + "/missing" + sfx); break;
+        case 2: w.names.push_back(pfx + "/garbage" + sfx); break;
         case 3: { char b[40]; snprintf(b, sizeof b, "Fixed/UTC+%02d:%02d:00", *vf::range<int>(0, 23), *vf::range<int>(0, 59)); w.names.push_back(b); break; }
         case 4: w.names.push_back(*rc::gen::element<std::string>("UTC", "UTC0")); break;
         default: w.names.push_back(base + "/" + *rc::gen::element<std::string>("America/Los_Angeles", "Europe/Paris", "Asia/Tokyo", "Pacific/Apia", "America/Sao_Paulo")); break;
       }
     }
     const int k = *rc::gen::weightedOneOf<int>({{4, vf::range<int>(2, 8)}, {2, vf::range<int>(9, 16)}, {a.thorough() ? 1 : 0, vf::range<int>(17, 64)}});
-    const int nops = *vf::range<int>(5, 60);
+    const int nops = hammer ? *vf::range<int>(300, 1500) : *vf::range<int>(5, 60);
+    const int hot = *vf::range<int>(0, nnames - 1);
     for (int t = 0; t < k; ++t) {
       std::vector<Op> ops;
       // every thread starts by loading (so first loads race), then mixes
-      ops.push_back(Op{0, *vf::range<int>(0, nnames - 1), 0});
+      // the first loads concentrate on one or two "hot" names so that several threads are inside the first load of
+      // the same name (valid or not) at the same time
+      ops.push_back(Op{0, *vf::range<int>(0, 2) ? hot : *vf::range<int>(0, nnames - 1), 0});
       for (int j = 1; j < nops; ++j) {
-        Op op; op.kind = *rc::gen::weightedElement<int>({{2, 0}, {6, 1}, {4, 2}, {1, 3}, {1, 4}, {1, 5}, {1, 6}, {1, 7}});
+        Op op; op.kind = hammer ? *rc::gen::weightedElement<int>({{6, 1}, {8, 2}, {1, 3}, {1, 4}, {1, 6}})
+                                : *rc::gen::weightedElement<int>({{2, 0}, {6, 1}, {4, 2}, {1, 3}, {1, 4}, {1, 5}, {1, 6}, {1, 7}});
         op.a = *vf::range<int>(0, nnames - 1);
         op.b = *rc::gen::weightedOneOf<int64_t>({{6, vf::range<int64_t>(-2500000000LL, 4200000000LL)}, {1, vf::any_i64()}, {1, rc::gen::element<int64_t>(INT64_MIN, INT64_MAX, 0, 1710054000, 1699164000)}});
         ops.push_back(op);
@@ -201,6 +229,7 @@ static void run(const vf::Args& a, vf::Evidence& ev, vf::Reporter& rep) {
     size_t total = 0; for (auto& t : w.threads) total += t.size();
     EV->eval(total);
     EV->cls("workloads");
+    if (hammer) EV->cls("hammer_workloads(one shared zone, 300-1500 lookups per thread)");
     EV->cls("threads_" + std::string(k <= 4 ? "2-4" : k <= 8 ? "5-8" : k <= 16 ? "9-16" : "17-64"));
     if (overlapped) { EV->nt(vf::fnv(c.serialize())); EV->cls("workload_with_overlapping_loads(observed)"); }
     if (EV->want_sample("wl")) EV->sample("wl", std::to_string(k) + " threads x " + std::to_string(nops) + " ops over names " + c.get("names").substr(0, 160));
